@@ -291,6 +291,19 @@ func c19Generate(quick bool, emit func(doc string)) {
 		}
 		emit(genDoc([][]genItem{msg}, comps, h, trl))
 	}
+	// T6: a chain of three components below a message, below a group, in the header and in the trailer: every
+	// combination of required flags along the chain and on the field at its end
+	for m := 0; m < 1<<7; m++ {
+		comps := map[string][]genItem{
+			"C1": {{kind: "f", name: "A", req: b(m, 4)}, {kind: "c", name: "C2", req: b(m, 1)}},
+			"C2": {{kind: "c", name: "C3", req: b(m, 2)}, {kind: "f", name: "B", req: b(m, 5)}},
+			"C3": {{kind: "f", name: "D", req: b(m, 3)}, {kind: "f", name: "E", req: b(m, 6)}},
+		}
+		chain := genItem{kind: "c", name: "C1", req: b(m, 0)}
+		msgs := [][]genItem{{chain}, {{kind: "g", name: "NoG1", req: b(m, 0), sub: []genItem{{kind: "f", name: "C", req: true}, chain}}}}
+		emit(genDoc(msgs, comps, hdr, trl))
+		emit(genDoc([][]genItem{{{kind: "f", name: "F", req: true}}}, comps, append(append([]genItem{}, hdr...), chain), append([]genItem{chain}, trl...)))
+	}
 	// T5: sibling components (and groups) that begin with the same nested component of 1..8 fields and each
 	// declare something of their own behind it (a loader that shares the nested component's field list between
 	// its users shows up here, for the list lengths that leave spare capacity)
@@ -393,7 +406,7 @@ func runC19(c *core.Ctx) {
 	} else {
 		c.SetDeadline(30 * time.Minute)
 	}
-	c.SetRule("all nine shipped specifications in full (every message, header, trailer, group at every depth, field type and enumeration) plus generated specifications: three structural templates (component chains, groups in components, components in groups, nested groups) with every combination of required flags and member permutations, duplicate declarations, sibling components and groups sharing a leading nested component of 1-8 fields, and every placement of one dangling field/component/group reference (also inside a component nothing uses); oracle = independent XML walk")
+	c.SetRule("all nine shipped specifications in full (every message, header, trailer, group at every depth, field type and enumeration) plus generated specifications: three structural templates (component chains, a chain of three components below a message / a group / in header and trailer, groups in components, components in groups, nested groups) with every combination of required flags and member permutations, duplicate declarations, sibling components and groups sharing a leading nested component of 1-8 fields, and every placement of one dangling field/component/group reference (also inside a component nothing uses); oracle = independent XML walk")
 	c.Assume("when a tag is declared twice at the top level of one message only the set-valued facts (reachable tags, required tags) are compared")
 	var evals int64
 	for _, n := range c09DictNames {
